@@ -14,6 +14,11 @@ REPO = os.environ.get("VERIF_REPO", "/repo")
 BUILD = os.path.join(VERIF, ".build")
 WORK = os.path.join(VERIF, ".work")
 HARNESS = os.path.join(VERIF, "harness")
+# Mutation testing: VERIF_OVERLAY=<json file {"Replace": {"/repo/pkg/x.go": "/scratch/mutant.go"}}> builds the harness and the CLI
+# against /repo with those files replaced (go build -overlay), in a build directory of its own; evidence and replays of
+# such runs (and of VERIF_REPO runs) go to .work/alt-results/, never to evidence/ or replays/.
+OVERLAY = os.environ.get("VERIF_OVERLAY")
+ALT = bool(OVERLAY) or os.path.realpath(REPO) != "/repo"
 
 ENV = dict(os.environ)
 ENV.update({"GOFLAGS": "-mod=mod", "GOPROXY": "off", "GOSUMDB": "off", "GOTOOLCHAIN": "local",
@@ -71,6 +76,10 @@ def build(pid, flavours, need_cli, need_cli_race):
         open(os.path.join(BUILD, "go.mod"), "w").write(gm)
         shutil.copy(os.path.join(HARNESS, "go.sum"), os.path.join(BUILD, "go.sum"))
         modfile = ["-modfile=" + os.path.join(BUILD, "go.mod")]
+    extra_overlay = {}
+    if OVERLAY:
+        BUILD = os.path.join(VERIF, ".build", "ovl-" + hashlib.sha256(os.path.realpath(OVERLAY).encode()).hexdigest()[:12])
+        extra_overlay = json.load(open(OVERLAY)).get("Replace", {})
     os.makedirs(BUILD, exist_ok=True)
     lock = open(os.path.join(BUILD, "lock"), "w")
     fcntl.flock(lock, fcntl.LOCK_EX)
@@ -84,7 +93,9 @@ def build(pid, flavours, need_cli, need_cli_race):
         mine = "prop_" + pid.lower() + ".go"
         overlay = {f: "" for f in glob.glob(os.path.join(HARNESS, "cmd", "vh", "prop_c*.go")) if os.path.basename(f) != mine}
         ovl = os.path.join(BUILD, "overlay-%s-%s.json" % (pid, tag))
+        overlay.update(extra_overlay)
         json.dump({"Replace": overlay}, open(ovl, "w"))
+        climod = ["-overlay=" + os.path.realpath(OVERLAY)] if OVERLAY else []
         modfile = modfile + ["-overlay=" + ovl]
         for fl in sorted(set(flavours)):
             flag = {"plain": [], "race": ["-race"], "asan": ["-asan"]}[fl]
@@ -93,11 +104,11 @@ def build(pid, flavours, need_cli, need_cli_race):
             outs["vh-" + fl] = dst
         if need_cli:
             dst = os.path.join(BUILD, "rare")
-            jobs.append((["go", "build", "-tags", "verif", "-o", dst + "." + tag, "."], REPO, dst))
+            jobs.append((["go", "build", "-tags", "verif"] + climod + ["-o", dst + "." + tag, "."], REPO, dst))
             outs["rare"] = dst
         if need_cli_race:
             dst = os.path.join(BUILD, "rare-race")
-            jobs.append((["go", "build", "-tags", "verif", "-race", "-o", dst + "." + tag, "."], REPO, dst))
+            jobs.append((["go", "build", "-tags", "verif", "-race"] + climod + ["-o", dst + "." + tag, "."], REPO, dst))
             outs["rare-race"] = dst
         with ThreadPoolExecutor(max_workers=4) as ex:
             results = list(ex.map(lambda j: (j, sh(j[0], j[1])), jobs))
@@ -402,11 +413,14 @@ def finish(pid, tier, seed, m, t_start, replay):
     except Exception:
         pass
     viol = m["violations"][:12]
-    os.makedirs(os.path.join(VERIF, "replays"), exist_ok=True)
+    resdir = VERIF
+    if ALT and not os.environ.get("VERIF_ALT_WRITES_EVIDENCE"):
+        resdir = os.path.join(WORK, "alt-results")
+    os.makedirs(os.path.join(resdir, "replays"), exist_ok=True)
     lines = []
     for v in viol:
         h = hashlib.sha256(v["fingerprint"].encode()).hexdigest()[:10]
-        path = os.path.join(VERIF, "replays", "%s-%s.json" % (pid, h))
+        path = os.path.join(resdir, "replays", "%s-%s.json" % (pid, h))
         json.dump(dict(property=pid, tier=tier, seed=seed, fingerprint=v["fingerprint"], message=v["message"],
                        flavour=v.get("flavour", "plain"), case=v.get("case"), stderr_tail=v.get("stderr_tail")),
                   open(path, "w"), indent=1, default=str)
@@ -434,10 +448,10 @@ def finish(pid, tier, seed, m, t_start, replay):
                    notes=m["notes"])
         ev = dict(property_id=pid, tier=tier, seed=seed, level="exploration", coverage=cov,
                   assumptions=meta.get("assumptions", []), wall_s=round(time.time() - t_start, 2), violations=len(viol))
-        os.makedirs(os.path.join(VERIF, "evidence"), exist_ok=True)
-        tmp = os.path.join(VERIF, "evidence", ".%s.json.%d" % (pid, os.getpid()))
+        os.makedirs(os.path.join(resdir, "evidence"), exist_ok=True)
+        tmp = os.path.join(resdir, "evidence", ".%s.json.%d" % (pid, os.getpid()))
         json.dump(ev, open(tmp, "w"), indent=1, default=str)
-        os.replace(tmp, os.path.join(VERIF, "evidence", "%s.json" % pid))
+        os.replace(tmp, os.path.join(resdir, "evidence", "%s.json" % pid))
     for k in m["known"]:
         log("KNOWN-FINDING: property=%s %s [%s]" % (pid, k.get("known") or k.get("message"), k["fingerprint"]))
     log("%s %s seed=%d: %d evaluations, %d distinct non-trivial, %d shards, flavours=%s, race blocks=%d, %.1fs" % (
